@@ -682,6 +682,8 @@ func main() {
 		{strings.TrimSuffix(*trDst, ".lean") + "Misc.lean", st.translateMisc()},
 		{strings.TrimSuffix(*trDst, ".lean") + "Aug.lean", st.translateAug()},
 		{strings.TrimSuffix(*trDst, ".lean") + "Reader.lean", st.translateReader()},
+		{strings.TrimSuffix(*trDst, ".lean") + "Names.lean", st.translateNames()},
+		{strings.TrimSuffix(*trDst, ".lean") + "Glue.lean", st.translateGlue()},
 	} {
 		if old, err := os.ReadFile(g.path); err != nil || !bytes.Equal(old, []byte(g.text)) {
 			if err := os.WriteFile(g.path, []byte(g.text), 0o644); err != nil {
